@@ -2,6 +2,8 @@ package props
 
 import (
 	"fmt"
+	"go/ast"
+	"go/constant"
 	"go/token"
 	"go/types"
 	"sort"
@@ -314,4 +316,236 @@ func c06AppendAfterMake(r *core.Run) {
 		}
 	}
 	r.Check(n > 0, "R06.10", "slices filled by append start empty", token.NoPos, fmt.Sprintf("%d append calls in package tds, none onto a slice made with a non-zero length", n), "no append calls seen")
+}
+
+// R06.12: reader and writer of one package agree on the ORDER of the package's fields (no specification needed): if
+// ReadFrom assigns field f from the wire before field g on every path where it handles both, WriteTo must not hand g
+// to the channel before f on every path where it handles both. E-SHAPE cannot see this for fields of equal width.
+func c06OrderAgreement(r *core.Run, ef *errFlow, pkgs []pkgCodec) {
+	p := r.Prog
+	sb := newShapeBuilder(p, ef)
+	n := 0
+	for i := range pkgs {
+		pc := &pkgs[i]
+		if pc.read == nil || pc.write == nil || len(pc.read.Blocks) == 0 || len(pc.write.Blocks) == 0 {
+			continue
+		}
+		st, ok := pc.named.Underlying().(*types.Struct)
+		if !ok || st.NumFields() < 2 {
+			continue
+		}
+		own := map[*types.Var]bool{}
+		for j := 0; j < st.NumFields(); j++ {
+			own[st.Field(j)] = true
+		}
+		var fromRead func(v ssa.Value, d int) bool
+		fromRead = func(v ssa.Value, d int) bool {
+			if d > 5 || v == nil {
+				return false
+			}
+			switch x := v.(type) {
+			case *ssa.Extract:
+				return fromRead(x.Tuple, d+1)
+			case *ssa.Call:
+				if _, isL := sb.letterOf(x); isL {
+					return true
+				}
+				for _, a := range x.Call.Args {
+					if fromRead(a, d+1) {
+						return true
+					}
+				}
+			case *ssa.Convert:
+				return fromRead(x.X, d+1)
+			case *ssa.ChangeType:
+				return fromRead(x.X, d+1)
+			case *ssa.MakeInterface:
+				return fromRead(x.X, d+1)
+			case *ssa.Phi:
+				for _, e := range x.Edges {
+					if fromRead(e, d+1) {
+						return true
+					}
+				}
+			}
+			return false
+		}
+		var directField func(v ssa.Value, d int) *types.Var
+		directField = func(v ssa.Value, d int) *types.Var {
+			if d > 4 || v == nil {
+				return nil
+			}
+			v = core.Strip(v)
+			if f, _ := core.FieldLoad(v); f != nil {
+				if own[f] {
+					return f
+				}
+				return nil
+			}
+			switch x := v.(type) {
+			case *ssa.Convert:
+				return directField(x.X, d+1)
+			case *ssa.ChangeType:
+				return directField(x.X, d+1)
+			case *ssa.UnOp:
+				if x.Op == token.MUL {
+					return directField(x.X, d+1)
+				}
+			case *ssa.Call:
+				if len(x.Call.Args) > 0 && !x.Call.IsInvoke() {
+					if _, isLen := isLenCall(x); !isLen {
+						return directField(x.Call.Args[0], d+1)
+					}
+				}
+			}
+			return nil
+		}
+		// before[f][g]: on some path f's first event precedes g's first event
+		pairs := func(fn *ssa.Function, event func(in ssa.Instruction) *types.Var) (map[[2]*types.Var]bool, bool) {
+			before := map[[2]*types.Var]bool{}
+			complete := core.EnumPaths(fn.Blocks[0], func(b *ssa.BasicBlock) bool { return false }, nil, 20000, func(pa core.Path, ended bool) {
+				var seq []*types.Var
+				seen := map[*types.Var]bool{}
+				for _, b := range pa.Blocks {
+					for _, in := range b.Instrs {
+						if f := event(in); f != nil && !seen[f] {
+							seen[f] = true
+							seq = append(seq, f)
+						}
+					}
+				}
+				for a := 0; a < len(seq); a++ {
+					for b := a + 1; b < len(seq); b++ {
+						before[[2]*types.Var{seq[a], seq[b]}] = true
+					}
+				}
+			})
+			return before, complete
+		}
+		rd, c1 := pairs(pc.read, func(in ssa.Instruction) *types.Var {
+			st, ok := in.(*ssa.Store)
+			if !ok {
+				return nil
+			}
+			fa, ok := st.Addr.(*ssa.FieldAddr)
+			if !ok {
+				return nil
+			}
+			f := core.FieldOfAddr(fa)
+			if !own[f] || !fromRead(st.Val, 0) {
+				return nil
+			}
+			return f
+		})
+		wr, c2 := pairs(pc.write, func(in ssa.Instruction) *types.Var {
+			c, ok := in.(*ssa.Call)
+			if !ok {
+				return nil
+			}
+			if l, isL := sb.letterOf(c); !isL || len(c.Call.Args) == 0 || l == "S" && false {
+				return nil
+			}
+			return directField(c.Call.Args[len(c.Call.Args)-1], 0)
+		})
+		if !c1 || !c2 || len(rd) == 0 || len(wr) == 0 {
+			continue // too many paths, or one side handles fewer than two recognisable fields
+		}
+		n++
+		key := pc.name
+		if pc.variant != nil {
+			key += " (all variants)"
+		}
+		bad := ""
+		for pr := range rd {
+			rev := [2]*types.Var{pr[1], pr[0]}
+			if rd[rev] || !wr[rev] || wr[pr] {
+				continue
+			}
+			bad = fmt.Sprintf("ReadFrom takes %s from the wire before %s, WriteTo sends %s before %s: two fields change places between writing and reading (invisible to the width comparison when they are equally wide)", pr[0].Name(), pr[1].Name(), pr[1].Name(), pr[0].Name())
+		}
+		r.Check(bad == "", "R06.12", key+": reader and writer handle the fields in the same order", pc.write.Pos(), fmt.Sprintf("%d ordered field pairs of the reader, none reversed by the writer", len(rd)), bad)
+	}
+	if n == 0 {
+		r.Unknown("R06.12", "reader/writer field order", token.NoPos, "no package with two recognisable fields on both sides")
+	}
+}
+
+// R06.13: two tables describe the width of a fixed-length data type — asetypes.ByteSizes (what GoValue/Bytes and the
+// readers use) and the setMaxLength constant of the type's arm in LookupFieldFmt (what fieldData.writeTo hands to
+// DataType.Bytes as the width to produce). For every type listed in ByteSizes the two must agree; a fixed-length
+// format carries no length on the wire, so a writer that uses a different width shifts everything that follows.
+func c06WidthTables(r *core.Run) {
+	p := r.Prog
+	apk := p.Pkg("asetypes")
+	tpk := p.Pkg("tds")
+	cl, _ := findVarLit(apk, "ByteSizes")
+	if cl == nil {
+		r.Unknown("R06.13", "asetypes.ByteSizes", token.NoPos, "literal not found")
+		return
+	}
+	ents, ok := mapLitEntries(apk, cl)
+	if !ok {
+		r.Unknown("R06.13", "asetypes.ByteSizes", cl.Pos(), "not a table of constants")
+		return
+	}
+	size := map[string]constant.Value{}
+	for _, e := range ents {
+		if e.KeyObj != nil {
+			size[e.KeyObj.Name()] = e.Val
+		}
+	}
+	fd := funcDecl(tpk, p.Obj("tds", "LookupFieldFmt"))
+	if fd == nil || fd.Body == nil {
+		r.Unknown("R06.13", "tds.LookupFieldFmt", token.NoPos, "declaration not found")
+		return
+	}
+	n := 0
+	ast.Inspect(fd.Body, func(nd ast.Node) bool {
+		cc, ok := nd.(*ast.CaseClause)
+		if !ok {
+			return true
+		}
+		var names []string
+		for _, e := range cc.List {
+			if o := usedObj(tpk.TypesInfo, e); o != nil {
+				names = append(names, o.Name())
+			}
+		}
+		var maxLen constant.Value
+		var at token.Pos
+		for _, st := range cc.Body {
+			ast.Inspect(st, func(x ast.Node) bool {
+				call, ok := x.(*ast.CallExpr)
+				if !ok {
+					return true
+				}
+				if sel, ok := call.Fun.(*ast.SelectorExpr); ok && sel.Sel.Name == "setMaxLength" && len(call.Args) == 1 {
+					if tv, has := tpk.TypesInfo.Types[call.Args[0]]; has && tv.Value != nil {
+						maxLen, at = tv.Value, call.Pos()
+					}
+				}
+				return true
+			})
+		}
+		for _, name := range names {
+			want, fixed := size[name]
+			if !fixed {
+				continue
+			}
+			n++
+			key := "LookupFieldFmt: width of " + name
+			switch {
+			case maxLen == nil:
+				r.Bad("R06.13", key, cc.Pos(), "the fixed-length type "+name+" gets no constant maximal length although asetypes.ByteSizes lists it with "+want.ExactString()+" bytes")
+			case !constEq(maxLen, want):
+				r.Bad("R06.13", key, at, "LookupFieldFmt gives "+name+" a length of "+maxLen.ExactString()+" bytes, asetypes.ByteSizes says "+want.ExactString()+": the value is written "+maxLen.ExactString()+" bytes wide while format and readers assume "+want.ExactString()+", and everything after it on the wire is shifted")
+			default:
+				r.OK("R06.13", key, at, want.ExactString()+" bytes in both tables")
+			}
+		}
+		return true
+	})
+	if n == 0 {
+		r.Unknown("R06.13", "LookupFieldFmt: fixed-length arms", fd.Pos(), "no arm for a type listed in ByteSizes found")
+	}
 }
